@@ -145,6 +145,11 @@ def normalise_shared_options(cfg):
     explicitly (the oracles read the configuration, not the objects)."""
     if cfg.get("share_options"):
         first = next((c for c in cfg["cases"] if c["estimator"] == "lossmin"), None)
+        # cost control: the shared option object also serves the cases with the slow (pure Python) losses, whose iteration
+        # budget is small when they have options of their own
+        slow = [c["algo"]["max_iteration"] for c in cfg["cases"] if c["estimator"] == "lossmin" and c.get("loss") in ("se", "re")]
+        if first is not None and slow:
+            first["algo"]["max_iteration"] = min([first["algo"]["max_iteration"]] + slow)
         for c in cfg["cases"]:
             if c["estimator"] == "lossmin" and c is not first:
                 c["algo"] = dict(first["algo"])
